@@ -478,6 +478,75 @@ impl Obj for SpeedLimitTrainSimVec {
         }
     }
 }
+impl Obj for Heading {
+    const NAME: &'static str = "Heading";
+    fn hits(&self, p: &str, o: &mut Vec<String>) {
+        if self.lat.is_none() {
+            o.push(jp(p, "lat"));
+        }
+        if self.lon.is_none() {
+            o.push(jp(p, "lon"));
+        }
+    }
+}
+impl Obj for ConventionalLoco {
+    const NAME: &'static str = "ConventionalLoco";
+    fn warm(&mut self) {
+        self.gen.warm();
+        self.edrv.warm();
+    }
+    fn hits(&self, p: &str, o: &mut Vec<String>) {
+        self.fc.hits(&jp(p, "fc"), o);
+        self.gen.hits(&jp(p, "gen"), o);
+        self.edrv.hits(&jp(p, "edrv"), o);
+    }
+}
+impl Obj for BatteryElectricLoco {
+    const NAME: &'static str = "BatteryElectricLoco";
+    fn warm(&mut self) {
+        self.edrv.warm();
+    }
+    fn hits(&self, p: &str, o: &mut Vec<String>) {
+        self.res.hits(&jp(p, "res"), o);
+        self.edrv.hits(&jp(p, "edrv"), o);
+    }
+}
+impl Obj for HybridLoco {
+    const NAME: &'static str = "HybridLoco";
+    fn warm(&mut self) {
+        self.gen.warm();
+        self.edrv.warm();
+    }
+    fn hits(&self, p: &str, o: &mut Vec<String>) {
+        self.fc.hits(&jp(p, "fc"), o);
+        self.gen.hits(&jp(p, "gen"), o);
+        self.res.hits(&jp(p, "res"), o);
+        self.edrv.hits(&jp(p, "edrv"), o);
+    }
+}
+plain_obj!(DummyLoco, "DummyLoco");
+plain_obj!(altrios_core::meet_pass::disp_structs::DispAuth, "DispAuth");
+plain_obj!(altrios_core::meet_pass::disp_structs::DispNode, "DispNode");
+plain_obj!(LocoParams, "LocoParams");
+plain_obj!(PowerDistributionControlType, "PowerDistributionControlType");
+plain_obj!(Elev, "Elev");
+plain_obj!(SpeedLimit, "SpeedLimit");
+plain_obj!(SpeedParam, "SpeedParam");
+plain_obj!(CatPowerLimit, "CatPowerLimit");
+plain_obj!(LinkPoint, "LinkPoint");
+plain_obj!(PathResCoeff, "PathResCoeff");
+plain_obj!(SpeedLimitPoint, "SpeedLimitPoint");
+plain_obj!(EstTime, "EstTime");
+plain_obj!(LinkEvent, "LinkEvent");
+plain_obj!(BrakingPoint, "BrakingPoint");
+plain_obj!(LinkIdxTime, "LinkIdxTime");
+plain_obj!(GeneratorState, "GeneratorState");
+plain_obj!(ElectricDrivetrainState, "ElectricDrivetrainState");
+plain_obj!(FricBrakeState, "FricBrakeState");
+plain_obj!(GeneratorStateHistoryVec, "GeneratorStateHistoryVec");
+plain_obj!(ElectricDrivetrainStateHistoryVec, "ElectricDrivetrainStateHistoryVec");
+plain_obj!(ReversibleEnergyStorageStateHistoryVec, "ReversibleEnergyStorageStateHistoryVec");
+plain_obj!(LocomotiveStateHistoryVec, "LocomotiveStateHistoryVec");
 plain_obj!(PowerTrace, "PowerTrace");
 plain_obj!(SpeedTrace, "SpeedTrace");
 plain_obj!(InitTrainState, "InitTrainState");
@@ -669,6 +738,25 @@ impl<'a> Run<'a> {
             self.ctx.count(if hit { "serde.ops.with_omitted_field" } else { "serde.ops.nothing_omitted" });
         }
         out
+    }
+}
+
+impl<'a> Run<'a> {
+    /// what a missing key becomes on load (`#[serde(default)]`, `default = "f"`, implicit `None` of an
+    /// `Option`, error otherwise): delete each top-level key of the real encoder's output in turn and
+    /// ask the real derived `Deserialize` (no `init`) whether the rest still loads
+    fn missing_keys<T: Obj>(&mut self, x: &T) {
+        let tx = tree(x);
+        let Y::Mapping(m) = &tx else { return; };
+        let mut sh = String::new();
+        shape(&tx, &mut sh);
+        for (k, _) in m.iter() {
+            let mut m2 = m.clone();
+            m2.remove(k);
+            let loads = guard(|| serde_yaml::from_value::<T>(Y::Mapping(m2)).is_ok()).unwrap_or(false);
+            self.ctx.count(if loads { "serde.missing_key.defaulted" } else { "serde.missing_key.rejected" });
+            self.ctx.op(P, "serde_missing", &format!("{} ={}{}", pct(T::NAME), pct(&key_str(k)), sh), &format!("ok {}", b(loads)));
+        }
     }
 }
 
@@ -1123,6 +1211,8 @@ pub fn run(ctx: &mut Ctx, r: &mut Rng, tier: &str) {
     let _ = std::fs::create_dir_all(&tmp);
     let mut run = Run { ctx, n_inputs: BTreeMap::new(), max_ulps_json: 0, max_rel_json_resume: 0.0, files: true, tmp: tmp.clone(), n_obj: 0 };
 
+    let loc = Location { location_id: "Barstow Yard".into(), offset: m(12.5), link_idx: LinkIdx::new(96), is_front_end: true,
+        grid_emissions_region: "CAMXc".into(), electricity_price_region: "CA".into(), liquid_fuel_price_region: "CA".into() };
     // ---- every exported type in its default state (corpus: runs first, independent of the seed)
     run.check("default", "default", &FuelConverter::default(), true);
     run.check("default", "default", &Generator::default(), true);
@@ -1173,8 +1263,82 @@ pub fn run(ctx: &mut Ctx, r: &mut Rng, tier: &str) {
     run.check("default", "default", &LocomotiveState::default(), true);
     run.check("default", "default", &ReversibleEnergyStorageState::default(), true);
     run.check("default", "default", &FuelConverterStateHistoryVec::default(), true);
+    // the small building blocks on their own (a failure inside a big object whose bincode round trip
+    // is already excused by a skipped field would otherwise be masked)
+    run.check("corpus", "default", &loc, true);
+    run.check("default", "default", &Location::default(), true);
+    run.check("default", "default", &Heading::default(), true);
+    run.check("corpus", "default", &Heading { offset: m(3.0), heading: uc::RAD * 1.25, lat: Some(35.1), lon: None }, true);
+    run.check("corpus", "default", &Heading { offset: m(3.0), heading: uc::RAD * 1.25, lat: Some(35.1), lon: Some(-117.2) }, true);
+    run.check("default", "default", &ConventionalLoco::default(), true);
+    run.check("default", "default", &BatteryElectricLoco::default(), true);
+    run.check("default", "default", &HybridLoco::default(), true);
+    run.check("default", "default", &DummyLoco::default(), true);
+    run.check("default", "default", &LocoParams::default(), true);
+    run.check("default", "default", &PowerDistributionControlType::default(), true);
+    run.check("corpus", "default", &PowerDistributionControlType::Proportional(Proportional), true);
+    run.check("corpus", "default", &PowerDistributionControlType::FrontAndBack(altrios_core::consist::FrontAndBack), true);
+    run.check("corpus", "default", &PowerDistributionControlType::GoldenSectionSearch(altrios_core::consist::GoldenSectionSearch { fuel_res_ratio: 1.5, gss_interval: 10 }), true);
+    run.check("corpus", "default", &TrainRes::Point(method::Point::valid()), true);
+    run.check("default", "default", &altrios_core::meet_pass::disp_structs::DispAuth::default(), true);
+    run.check("default", "default", &altrios_core::meet_pass::disp_structs::DispNode::default(), true);
+    run.check("default", "default", &Elev::default(), true);
+    run.check("valid", "default", &SpeedLimit::valid(), true);
+    run.check("valid", "default", &SpeedParam::valid(), true);
+    run.check("valid", "default", &CatPowerLimit::valid(), true);
+    run.check("valid", "default", &LinkPoint::valid(), true);
+    run.check("default", "default", &PathResCoeff::default(), true);
+    run.check("default", "default", &SpeedLimitPoint::default(), true);
+    run.check("default(nan time)", "default", &EstTime::default(), true);
+    run.check("default", "default", &LinkEvent::default(), true);
+    run.check("default", "default", &BrakingPoint::default(), true);
+    run.check("default", "default", &GeneratorState::default(), true);
+    run.check("default", "default", &ElectricDrivetrainState::default(), true);
+    run.check("default", "default", &FricBrakeState::default(), true);
+    run.check("default", "default", &GeneratorStateHistoryVec::default(), true);
+    run.check("default", "default", &ElectricDrivetrainStateHistoryVec::default(), true);
+    run.check("default", "default", &ReversibleEnergyStorageStateHistoryVec::default(), true);
+    run.check("default", "default", &LocomotiveStateHistoryVec::default(), true);
+    run.check("default", "default", &ConsistStateHistoryVec::default(), true);
+    run.check("default", "default", &TrainStateHistoryVec::default(), true);
     run.check("default", "default", &LocomotiveSimulationVec(vec![LocomotiveSimulation::default(); 2]), true);
     run.check("default", "default", &SpeedLimitTrainSimVec(vec![SpeedLimitTrainSim::valid()]), true);
+    // every top-level key deleted in turn: which fields may be absent from a file
+    {
+        let mut fc = FuelConverter::default();
+        fc.state.i = 7; // so that `state` is present in the output and its deletion is exercised too
+        run.missing_keys(&fc);
+        let mut g = Generator::default();
+        g.state.i = 7;
+        run.missing_keys(&g);
+        let mut l = Locomotive::default();
+        l.state.i = 7;
+        run.missing_keys(&l);
+        let mut c = Consist::default();
+        c.state.i = 7;
+        run.missing_keys(&c);
+        let mut li = Link::valid();
+        li.osm_id = Some("way/1".into());
+        run.missing_keys(&li);
+        let mut tc = TrainConfig::valid();
+        tc.cd_area_vec = Some(vec![uc::M2 * 1.0; 100]);
+        run.missing_keys(&tc);
+        run.missing_keys(&Heading { offset: m(3.0), heading: uc::RAD * 1.25, lat: Some(35.1), lon: Some(-117.2) });
+        run.missing_keys(&TrainSimBuilder::default());
+        run.missing_keys(&SpeedSet::valid());
+        let mut s = SpeedLimitTrainSim::valid();
+        s.state.i = 7;
+        s.fric_brake.state.i = 7;
+        run.missing_keys(&s);
+        let mut s = SetSpeedTrainSim::default();
+        s.state.i = 7;
+        run.missing_keys(&s);
+        run.missing_keys(&ReversibleEnergyStorage::default());
+        run.missing_keys(&ElectricDrivetrain::default());
+        run.missing_keys(&FricBrake::default());
+        run.missing_keys(&PowerTrace::default());
+        run.missing_keys(&loc);
+    }
     // non-finite corpus: what do the three formats do with NaN / ±inf inside traces
     {
         let mut pt = PowerTrace::new(vec![0.0, 1.0, 2.0], vec![0.0, f64::INFINITY, f64::NEG_INFINITY], vec![Some(true), None, Some(false)]);
